@@ -20,7 +20,7 @@ func genC19(r *Rng, k int, tier string) *RunSpec {
 	a.ClockBase = int64(r.Intn(2_000_000_000))
 	a.Zone = Pick(r, []int{0, 7200, -28800})
 	tx := &TxSpec{Algo: Pick(r, []string{"rsa-sha256", "rsa-sha256", "hmac-sha256"}), Headers: Pick(r, txHeaderLists), Fates: map[string]string{},
-		Agent: Pick(r, []string{"simapp/1.0", "My App (test) v2"}), KeyID: "https://" + hostA + "/u/alice#main-key"}
+		Agent: Pick(r, []string{"simapp/1.0", "My App (test) v2", "demoApp/1.0 (go-fed/activity v1.0.0)"}), KeyID: "https://" + hostA + "/u/alice#main-key"}
 	st.W.Tx = tx
 	var reqs []ReqSpec
 	nreq := 1 + r.Intn(3)
@@ -213,6 +213,11 @@ func oracleC19(c *DriveCtx, res *Result) {
 			}
 			if t.Err == nil && !strings.Contains(body, "\"type\":\"Note\"") {
 				s.violate("C19", "dereference-body", "Dereference", "successful Dereference did not return the response body")
+			}
+			if t.Err == nil && fate == "status:200" {
+				if want := string(txDoc(t.Req.Recipients[0])); body != want {
+					s.violate("C19", "dereference-body", "Dereference", fmt.Sprintf("Dereference returned %d bytes, the response body has %d (%q...)", len(body), len(want), trunc(body, 60)))
+				}
 			}
 			if t.Err == nil && string(t.Held) != body {
 				s.violate("C19", "dereference-body-changed-later", "Dereference", fmt.Sprintf("the body Dereference returned for %s read %q when it was returned and %q when the run was over (shared with a later call)", t.Req.Recipients[0], trunc(body, 80), trunc(string(t.Held), 80)))
